@@ -399,6 +399,68 @@ func sortSlice(ex *Exec, st *State, fr *Frame, callee *ssa.Function, args []Val,
 	}
 	el := rec.t.Underlying().(*types.Slice).Elem()
 	sv := ex.viewSlice(sl, rec.t)
+	// the less closure: when it is under contract with a functional
+	// post-condition "result == E(i, j)", its precondition is an obligation for
+	// all index pairs before the sort and "no later element is less than an
+	// earlier one" is assumed after it (the documented result of sort.Slice)
+	var lessFr *Frame
+	var lessE Expr
+	var lessSlice string
+	if len(args) > 1 {
+		if clo, ok := args[1].(*Clo); ok && ex.db != nil {
+			if ct := ex.db.funcs[funcName(clo.Fn)]; ct != nil && len(clo.Fn.Params) == 2 {
+				for _, en := range ct.Ensures {
+					if b, ok := en.Expr.(*EBin); ok && b.Op == "==" {
+						if id, ok := b.X.(*EIdent); ok && id.Name == "result" {
+							lessE = b.Y
+						}
+					}
+				}
+				for _, fv := range clo.Fn.FreeVars {
+					if pt, ok := fv.Type().Underlying().(*types.Pointer); ok && types.Identical(pt.Elem(), rec.t) {
+						lessSlice = fv.Name()
+					}
+				}
+				if lessE != nil && lessSlice != "" {
+					lessFr = &Frame{fn: clo.Fn, regs: map[ssa.Value]Val{}, depth: fr.depth + 1, parent: fr, callPos: pos, ct: ct}
+					for i, fv := range clo.Fn.FreeVars {
+						if i < len(clo.Binds) {
+							lessFr.regs[fv] = clo.Binds[i]
+						}
+					}
+					pi, pj := clo.Fn.Params[0].Name(), clo.Fn.Params[1].Name()
+					var reqs []string
+					for _, rq := range ct.Requires {
+						reqs = append(reqs, "("+rq.Text+")")
+					}
+					if len(reqs) > 0 {
+						src := fmt.Sprintf("forall %s int, %s int :: 0 <= %s && %s < len(%s) && 0 <= %s && %s < len(%s) ==> %s", pi, pj, pi, pi, lessSlice, pj, pj, lessSlice, strings.Join(reqs, " && "))
+						if qe, err := parseExpr(src); err == nil {
+							g := ex.evalBool(lessFr, st, st, nil, qe)
+							ex.oblige(st, fr, "pre("+funcName(clo.Fn)+")", pos, "sort.Slice less: "+strings.Join(reqs, " && "), g)
+						} else {
+							ex.unsupportedf("sort.Slice: cannot build the closure precondition: %v", err)
+						}
+					}
+					ex.usedContracts[funcName(clo.Fn)] = true
+				}
+			}
+		}
+	}
+	defer func() {
+		if lessFr == nil {
+			return
+		}
+		pi, pj := lessFr.fn.Params[0].Name(), lessFr.fn.Params[1].Name()
+		src := fmt.Sprintf("forall %s int, %s int {%s[%s], %s[%s]} :: 0 <= %s && %s < %s && %s < len(%s) ==> !(%s)", pi, pj, lessSlice, pi, lessSlice, pj, pj, pj, pi, pi, lessSlice, exprText(lessE))
+		qe, err := parseExpr(src)
+		if err != nil {
+			ex.unsupportedf("sort.Slice: cannot build the order fact: %v", err)
+			return
+		}
+		ex.assume(st, ex.evalBool(lessFr, st, st, nil, qe))
+		ex.vc.Trust("sort.Slice: afterwards no element is less (by the closure's proved specification) than an element before it")
+	}()
 	tree := ex.heapTree(st, AElems, el)
 	// permutation: new[i] = old[perm(i)] with perm mapping [0,len) into [0,len)
 	ex.vc.n++
